@@ -134,6 +134,62 @@ fn expand_includes_protocol(canonical_path: u64, active_set: &mut HashSet<u64>) 
     plan.dropped += u.dropped
 
 
+def braces_unit(plan):
+    """`standalone_braced_content` and `looks_like_mech_include` (src/mechfs.rs), whole bodies over bytes: `&str` -> `&[u8]`, `X.trim()` -> `trim_bytes(X)` (uninterpreted: some
+    sub-slice), `X.starts_with('c')` / `X.ends_with('c')` -> first / last byte tests, `X.ends_with(".mec")` -> `ends_with_mec(X)`, `&X[a..b]` -> `slice_subrange(X, a, b)` (whose
+    precondition a <= b <= len is the no-panic obligation)"""
+    src = read_repo(MECHFS)
+    MODEL = """
+pub uninterp spec fn trimmed(s: Seq<u8>) -> Seq<u8>;      // str::trim: the text without leading / trailing white space
+#[verifier::external_body]
+pub fn trim_bytes<'a>(s: &'a [u8]) -> (r: &'a [u8]) ensures r@ == trimmed(s@), { unimplemented!() }
+pub fn starts_with_byte(s: &[u8], c: u8) -> (b: bool) ensures b == (s@.len() > 0 && s@[0] == c), { s.len() > 0 && s[0] == c }
+pub fn ends_with_byte(s: &[u8], c: u8) -> (b: bool) ensures b == (s@.len() > 0 && s@[s@.len() - 1] == c), { s.len() > 0 && s[s.len() - 1] == c }
+pub open spec fn mec_suffix(s: Seq<u8>) -> bool { s.len() >= 4 && s[s.len() - 4] == 46u8 && s[s.len() - 3] == 109u8 && s[s.len() - 2] == 101u8 && s[s.len() - 1] == 99u8 }
+pub fn ends_with_mec(s: &[u8]) -> (b: bool) ensures b == mec_suffix(s@), { s.len() >= 4 && s[s.len() - 4] == 46u8 && s[s.len() - 3] == 109u8 && s[s.len() - 2] == 101u8 && s[s.len() - 1] == 99u8 }
+"""
+    items, fns = [MODEL], {}
+    n1, n2 = "C20.classifier.standalone_braced_content", "C20.classifier.looks_like_mech_include"
+    plan.ob(n1, "verus", "proved", functions=["src/mechfs.rs: standalone_braced_content"],
+            what="for every line: Some(inner) iff the trimmed line begins with `{` and ends with `}`, and inner is the text between those two braces; the slicing never panics")
+    plan.ob(n2, "verus", "proved", functions=["src/mechfs.rs: looks_like_mech_include"], what="true iff the trimmed content ends with `.mec`")
+    try:
+        sig, body = extract_fn(src, "standalone_braced_content")
+        if not re.search(r"\(\s*(\w+)\s*:\s*&str\s*\)\s*->\s*Option<&str>", sig):
+            raise AnchorLost("standalone_braced_content: signature changed")
+        pn = re.search(r"\(\s*(\w+)\s*:", sig).group(1)
+        b = re.sub(r"//[^\n]*", "", body)
+        b = re.sub(r"\b(\w+)\.trim\(\)", r"trim_bytes(\1)", b)
+        b = re.sub(r"\b(\w+)\.starts_with\('\{'\)", r"starts_with_byte(\1, 123u8)", b)
+        b = re.sub(r"\b(\w+)\.ends_with\('\}'\)", r"ends_with_byte(\1, 125u8)", b)
+        b = re.sub(r"&(\w+)\[\s*([^\]\.]+?)\s*\.\.\s*([^\]]+?)\s*\]", r"slice_subrange(\1, \2, \3)", b)
+        if re.search(r"\.(trim|starts_with|ends_with)\(", b):
+            raise AnchorLost("standalone_braced_content: statements outside the transcription rules")
+        items.append("fn standalone_braced_content<'a>(%s: &'a [u8]) -> (r: Option<&'a [u8]>)\n  ensures ({ let t = trimmed(%s@); let braced = t.len() > 0 && t[0] == 123u8 && t[t.len() - 1] == 125u8;\n    match r { Some(inner) => braced && t.len() >= 2 && inner@ == t.subrange(1, t.len() - 1), None => !braced } }),\n%s\n" % (pn, pn, b))
+        fns["standalone_braced_content"] = n1
+    except AnchorLost as e:
+        plan.anchor_errors.append((n1, str(e)))
+    try:
+        sig, body = extract_fn(src, "looks_like_mech_include")
+        pn = re.search(r"\(\s*(\w+)\s*:\s*&str\s*\)", sig)
+        if not pn:
+            raise AnchorLost("looks_like_mech_include: signature changed")
+        pn = pn.group(1)
+        b = re.sub(r"//[^\n]*", "", body)
+        b = re.sub(r"\b(\w+)\.trim\(\)", r"trim_bytes(\1)", b)
+        b = re.sub(r"\b(\w+)\.ends_with\(\"\.mec\"\)", r"ends_with_mec(\1)", b)
+        if re.search(r"\.(trim|starts_with|ends_with)\(", b):
+            raise AnchorLost("looks_like_mech_include: statements outside the transcription rules")
+        items.append("fn looks_like_mech_include(%s: &[u8]) -> (r: bool)\n  ensures r == mec_suffix(trimmed(%s@)),\n%s\n" % (pn, pn, b))
+        fns["looks_like_mech_include"] = n2
+    except AnchorLost as e:
+        plan.anchor_errors.append((n2, str(e)))
+    if fns:
+        items.append(verus_canary("canary_braces", "x: u64", []))
+        plan.verus.append(VerusUnit("c20_braces", "use vstd::prelude::*;\nuse vstd::slice::*;\nverus! {\n" + "\n".join(items) + "\n} // verus!\nfn main() {}\n", fns, ["canary_braces"]))
+        plan.dropped.append(braces_unit.__doc__.strip())
+
+
 def full_unit(plan):
     from units import vC20
     fns = {"expand_mechdown_include_tokens": "C20.verus.expand_mechdown_include_tokens.line_substitution",
@@ -157,11 +213,15 @@ def plan(plan, tier, seed):
     except AnchorLost as e:
         plan.anchor_errors.append(("C20.*", str(e)))
     full_unit(plan)
+    try:
+        braces_unit(plan)
+    except AnchorLost as e:
+        plan.anchor_errors.append(("C20.classifier.braces", str(e)))
     plan.functions += ["src/mechfs.rs: code_fence_delimiter; active-set protocol of expand_mechdown_includes_recursive"]
     plan.trusted += ["Verus / Z3, vstd HashSet specification"]
     plan.assumptions += ["modular recursion: the inner call of expand_mechdown_includes_recursive is a stand-in whose result is the NAME rec(path, active) and which restores the active set on success (the function's own contract); what is proved is the recursion equation F = unfold[rec := F], i.e. partial correctness -- termination is not proved",
                          "ASSUMED std contracts (named, uninterpreted in contracts/C20/incmodel.rs): str::split_inclusive('\\n') (and the two stated facts: re-splitting the concatenation of consecutive pieces gives those pieces, pieces are non-empty), str::strip_suffix, str::trim, String::push_str / is_empty / clear, Path::parent / join / canonicalize, File::open + read_to_string; HashSet per vstd",
-                         "the line classifiers are names in the whole-body unit: code_fence_delimiter and is_code_fence_close have their own obligations (C20.classifier.*); standalone_braced_content and looks_like_mech_include (str::trim / starts_with / ends_with) are not under contract",
+                         "the line classifiers are names in the whole-body unit and have their own obligations (C20.classifier.*); str::trim is uninterpreted there (some sub-slice)",
                          "path identity: canonicalize() maps equal files to equal paths (file system, not verified)"]
-    plan.undecided_clauses += ["C20: termination of the expansion (needs finiteness of the file system); that standalone_braced_content / looks_like_mech_include recognise exactly the stand-alone `{path.mec}` lines (str code); the error text naming the missing file"]
+    plan.undecided_clauses += ["C20: termination of the expansion (needs finiteness of the file system); the error text naming the missing file"]
     plan.level = "proof"
